@@ -178,7 +178,7 @@ func C04(c *core.Ctx) {
 	e := &enumCtx{c: c, seen: map[string]bool{}}
 	x := &c04{enumCtx: e, bufs: map[int][]byte{}}
 	th := c.Thorough()
-	c.Rep.Bound = "all byte strings up to 6 (quick) / 7 (thorough) bytes over an 8-value alphabet x 30 first bytes x 14 decoders; every truncation and every single-byte replacement (9 values per position) of a valid corpus; thorough: every pair of replacements within the first 24 bytes"
+	c.Rep.Bound = "all byte strings up to 6 (quick) / 7 (thorough) bytes over an 8-value alphabet x 30 first bytes x 14 decoders; every truncation, every frame ending early (remaining length adjusted), every wrong remaining length and every single-byte replacement (9 values per position) of a valid corpus; thorough: every pair of replacements within the first 24 bytes"
 	c.Rep.Rule = "ENUM with deviation bound (0, 1, 2 corrupted bytes); every input is presented in a slice with cap == len; oracle: no panic, 0 <= n <= len, fields inside input[:n], and agreement with the reference codec on every well-formed packet; distinct non-trivial = distinct (decoder, shape) accepted as well-formed plus distinct (decoder, length) accepted though malformed"
 	if c.Replay != nil {
 		fmt.Printf("replay of an input-enumeration finding: class %q\n  %s\n  input: %s\n", c.Replay.Scenario, c.Replay.Message, string(c.Replay.Input))
@@ -251,6 +251,22 @@ func C04(c *core.Ctx) {
 		for cut := 0; cut < len(wire); cut++ {
 			x.one(p.Type, wire[:cut], "truncated")
 		}
+		// a frame that ends early: the remaining length says k, and k body bytes follow
+		// (what the ring hands over when a sender announces less than the packet needs);
+		// and the whole packet with every remaining length 0..len(body)+2
+		if _, _, body, total, err := refcodec.Frame(wire); err == nil && total == len(wire) && len(body) < 400 {
+			for k := 0; k < len(body); k++ {
+				adj := append(append([]byte{wire[0]}, refcodec.VarLen(k)...), body[:k]...)
+				x.one(p.Type, adj, "frame-ending-early")
+			}
+			for k := 0; k <= len(body)+2; k++ {
+				if k == len(body) {
+					continue
+				}
+				adj := append(append([]byte{wire[0]}, refcodec.VarLen(k)...), body...)
+				x.one(p.Type, adj, "wrong-remaining-length")
+			}
+		}
 		// trailing bytes after a whole packet (the ring hands over exact frames,
 		// but the API takes any slice): the decoder must stop at the packet's end
 		for _, tail := range [][]byte{{0x00}, {0xff, 0xff, 0xff}, wire[:min(len(wire), 3)]} {
@@ -310,6 +326,16 @@ func HostileStreams(thorough bool) [][]byte {
 		}
 		for cut := 1; cut < len(wire); cut += step {
 			add(wire[:cut])
+		}
+		// frames that end early (remaining length adjusted to what follows)
+		if _, _, body, total, err := refcodec.Frame(wire); err == nil && total == len(wire) && len(body) <= 60 {
+			st := 1
+			if !thorough {
+				st = 4
+			}
+			for k := 0; k < len(body); k += st {
+				add(append(append([]byte{wire[0]}, refcodec.VarLen(k)...), body[:k]...))
+			}
 		}
 		lim := len(wire)
 		if lim > 8 && !thorough {
